@@ -358,7 +358,13 @@ func c17Same(got, want map[string]c17Route) bool {
 }
 
 func runC17(c c17Case, tr *vw.Trace) *vw.Violation {
+	// a busy machine can run out of local ports for a moment (every finished connection lingers in TIME_WAIT):
+	// that says nothing about the session under test, so wait for ports instead of judging anything
 	ln, err := net.Listen("tcp4", "127.0.0.1:0")
+	for tries := 0; err != nil && tries < 600; tries++ {
+		time.Sleep(250 * time.Millisecond)
+		ln, err = net.Listen("tcp4", "127.0.0.1:0")
+	}
 	if err != nil {
 		panic("verif-inconclusive: cannot listen on loopback: " + err.Error())
 	}
